@@ -12,6 +12,7 @@ import (
 	"crypto/x509"
 	"encoding/hex"
 	"fmt"
+	"hash"
 	"strings"
 	"sync"
 
@@ -42,7 +43,19 @@ type env struct {
 	to1d   *cose.Sign1[protocol.To1d, []byte]
 	chain  []crypto.Signer // mfg, intermediate owners..., final owner
 	donors map[string]*transcript
+	// hmacStyle: how the device's secret-keyed HMAC is implemented: "" a plain hash.Hash; "fallible" a hash.Hash that
+	// also offers Err() error (the optional method documented for hardware HMACs) and reports no error; "failing" one
+	// whose Err() reports an error (the hardware failed: nothing may be trusted)
+	hmacStyle string
 }
+
+// fallibleHash adds the optional Err method to a hash.
+type fallibleHash struct {
+	hash.Hash
+	err error
+}
+
+func (f fallibleHash) Err() error { return f.err }
 
 type transcript struct {
 	req60  []byte
@@ -54,7 +67,7 @@ type transcript struct {
 type deviation struct {
 	// replayed: what is delivered was recorded in ANOTHER session and nobody re-signed it; the peer of this run proved
 	// nothing about this session, so any progress is a violation whatever the reference verifier says about the bytes
-	replayed bool
+	replayed    bool
 	class, what string
 	on61        func(body []byte) []byte
 	on63        func(i int, body []byte) []byte
@@ -188,6 +201,13 @@ func (e *env) run(d deviation) obs {
 	}
 	cfg := e.w.Dev.TO2Config(lab.DefaultSuite(e.kind), kex.A128GcmCipher)
 	cfg.DeviceModules = map[string]serviceinfo.DeviceModule{"vmod": &lab.DeviceRec{Name: "vmod", Rec: rec}}
+	switch e.hmacStyle {
+	case "fallible":
+		cfg.HmacSha256, cfg.HmacSha384 = fallibleHash{cfg.HmacSha256, nil}, fallibleHash{cfg.HmacSha384, nil}
+	case "failing":
+		herr := fmt.Errorf("verif: hardware HMAC failed")
+		cfg.HmacSha256, cfg.HmacSha384 = fallibleHash{cfg.HmacSha256, herr}, fallibleHash{cfg.HmacSha384, herr}
+	}
 	if p := probe.Call(func() { o.cred, o.err = fdo.TO2(context.Background(), wire.Transport(), to1d, cfg) }); p != nil {
 		r.Violation(p.Key(), fmt.Sprintf("%s: device TO2 panics on %s (%s): %s in %s", e.kind.Name, d.class, d.what, p.Value, p.Frame), map[string]any{"class": d.class, "what": d.what, "resp61": hex.EncodeToString(o.tr.resp61)})
 		o.err = fmt.Errorf("panic")
@@ -327,13 +347,23 @@ func (e *env) refP(o obs) (bool, string) {
 
 func (e *env) judge(d deviation, o obs, honest bool) {
 	r.Evaluations.Add(1)
-	if !honest && !o.applied {
+	if !honest && !o.applied && e.hmacStyle != "failing" {
 		return
 	}
 	ok, why := e.refP(o)
 	progressed := o.cred != nil || o.err == nil || o.modCall > 0 || o.sent64
 	id := fmt.Sprintf("%s/enc%d hops=%d to1d=%v", e.kind.Name, e.enc, e.hops, e.to1d != nil)
+	if e.hmacStyle != "" {
+		id += " hmac=" + e.hmacStyle
+	}
 	repl := map[string]any{"config": id, "class": d.class, "what": d.what, "req60": hex.EncodeToString(o.tr.req60), "resp61": hex.EncodeToString(o.tr.resp61), "to1d": hex.EncodeToString(o.to1d)}
+	if e.hmacStyle == "failing" {
+		if progressed {
+			r.Violation("proceeds-although-hmac-failed:"+d.class, fmt.Sprintf("%s %s (%s): the device's HMAC implementation reported an error, yet the device went on (cred=%v err=%v module calls=%d ProveDevice sent=%v)", id, d.class, d.what, o.cred != nil, o.err, o.modCall, o.sent64), repl)
+		}
+		r.Distinct(fmt.Sprintf("%s|%s|failing-hmac|%v", e.kind.Name, d.class, progressed))
+		return
+	}
 	if d.replayed && o.applied && progressed {
 		r.Violation("proceeds-on-replayed-proof:"+d.class, fmt.Sprintf("%s %s (%s): the device went on (cred=%v err=%v module calls=%d ProveDevice sent=%v) on an owner proof recorded in another session", id, d.class, d.what, o.cred != nil, o.err, o.modCall, o.sent64), repl)
 	}
@@ -718,18 +748,20 @@ func main() {
 		enc  protocol.KeyEncoding
 		hops int
 		to1d bool
+		hmac string
 	}
-	cfgs := []cfg{{"ec256", protocol.X509KeyEnc, 2, true}, {"rsa2048restr", protocol.X5ChainKeyEnc, 2, false}}
+	cfgs := []cfg{{"ec256", protocol.X509KeyEnc, 2, true, ""}, {"rsa2048restr", protocol.X5ChainKeyEnc, 2, false, ""}, {"ec256", protocol.X509KeyEnc, 1, false, "fallible"}, {"ec384", protocol.X509KeyEnc, 1, false, "fallible"}}
 	if !r.Quick() {
 		cfgs = nil
 		for _, k := range keys.Kinds {
 			for _, enc := range k.Encodings() {
-				cfgs = append(cfgs, cfg{k.Name, enc, 1, true}, cfg{k.Name, enc, 3, false})
+				cfgs = append(cfgs, cfg{k.Name, enc, 1, true, ""}, cfg{k.Name, enc, 3, false, ""})
 			}
+			cfgs = append(cfgs, cfg{k.Name, protocol.X509KeyEnc, 2, true, "fallible"})
 		}
-		cfgs = append(cfgs, cfg{"ec256", protocol.X509KeyEnc, 2, true}, cfg{"ec384", protocol.CoseKeyEnc, 2, false})
+		cfgs = append(cfgs, cfg{"ec256", protocol.X509KeyEnc, 2, true, ""}, cfg{"ec384", protocol.CoseKeyEnc, 2, false, ""})
 	}
-	r.Rule("per configuration (key type x encoding x chain length x with/without to1d): an honest TO2 with a device module, then ONE deviation per run (bound 1, complete over the operator x node product) on what the real device-side fdo.TO2 receives: every single-node alteration (thorough: plus every byte ^0x01) of ProveOVHdr, of every OVNextEntry and of the to1d; 61 / each entry / to1d re-signed by every other key of the ring (each earlier chain key, strangers of same and other type, another manufacturer, the device key) with and without swapping the advertised owner key; an earlier owner serving its own shorter voucher; whole-message substitution from another session, another device; entries swapped/duplicated, echo index +-1; 9 HTTP-level faults; plus bound-2 pairs of the semantic operators. Oracle: (credential returned, nil error, any device-module callback, or a ProveDevice request leaving the device) => reference predicate on the delivered bytes (header HMAC under the device secret, manufacturer key hash, link-by-link entry chain, advertised key = last entry key, 61 signed by it over the device's nonce and HelloDevice hash, entry count/echo, to1d signed by it).")
+	r.Rule("per configuration (key type x encoding x chain length x with/without to1d): an honest TO2 with a device module, then ONE deviation per run (bound 1, complete over the operator x node product) on what the real device-side fdo.TO2 receives: every single-node alteration (thorough: plus every byte ^0x01) of ProveOVHdr, of every OVNextEntry and of the to1d; 61 / each entry / to1d re-signed by every other key of the ring (each earlier chain key, strangers of same and other type, another manufacturer, the device key) with and without swapping the advertised owner key; an earlier owner serving its own shorter voucher; whole-message substitution from another session, another device; entries swapped/duplicated, echo index +-1; 9 HTTP-level faults; plus bound-2 pairs of the semantic operators. Two (thorough: six more) configurations run with a device HMAC that also implements the optional Err() method (hardware style) and, once, with one whose Err() reports a failure (then nothing may proceed). Oracle: (credential returned, nil error, any device-module callback, or a ProveDevice request leaving the device) => reference predicate on the delivered bytes (header HMAC under the device secret, manufacturer key hash, link-by-link entry chain, advertised key = last entry key, 61 signed by it over the device's nonce and HelloDevice hash, entry count/echo, to1d signed by it).")
 	var wg sync.WaitGroup
 	sem := make(chan struct{}, 6)
 	for _, c := range cfgs {
@@ -743,7 +775,14 @@ func main() {
 				r.Violation("lab-setup:"+c.kind, fmt.Sprintf("%+v: %v", c, err), nil)
 				return
 			}
+			e.hmacStyle = c.hmac
 			e.explore(!r.Quick())
+			if c.hmac == "fallible" {
+				// the same device with an HMAC implementation that reports a failure: not even the honest owner may be trusted
+				e.hmacStyle = "failing"
+				d0 := deviation{class: "honest", what: "hardware HMAC reports an error"}
+				e.judge(d0, e.run(d0), false)
+			}
 		}()
 	}
 	wg.Wait()
